@@ -146,6 +146,18 @@ def r1_retransmission(ctx, F):
         pend = po.val(ins[0].args[2])
         dst_p = noref(pend.key[3][0]) if pend.kind == 'agg' and pend.key[3] else None
         ok = ok and dst_p == dst_w
+    # every Send of the wrapped actor goes on the wire and into the pending map: no path of the Send arm skips
+    # either (two equal payloads are two messages)
+    send_edges = [e[1] for e in swc[0].edges_for('Send')]
+    heads_ = [c for c in po.calls_to('Iterator::next') if po.in_cycle(c.bb)]
+    stop = [h.bb for h in heads_]
+    for what, sites in (('send', [c.bb for c in snd]), ('pending-insert', [c.bb for c in ins])):
+        r_ = po.reach(send_edges, cut_blocks=sites) if sites else set(stop) | set(po.returns)
+        ctx.check(bool(sites) and not any(x in r_ for x in stop) and not any(x in r_ for x in po.returns), rule,
+                  'every-send-is-sequenced:%s' % what, po,
+                  good='every Send command is wrapped and %s on every path' % ('sent' if what == 'send' else 'recorded as pending'),
+                  bad='process_output: a Send command of the wrapped actor can be skipped (%s is conditional): the '
+                      'message is never handed over although the wrapped actor sent it' % what)
     ctx.check(ok, rule, 'sequencer-consistent', po,
               good='the sequencer sent on the wire keys the pending entry (same destination), and is '
                    'incremented after both',
